@@ -719,9 +719,37 @@ impl<Front: SocketHandler + std::fmt::Debug, L: ListenerHandler + L7ListenerHand
                 MuxResult::CloseSession | MuxResult::Upgrade => return true,
             }
 
+            // Cross-readiness, as in `ready()`: the frontend wrote → the backends
+            // parked on a full stream buffer read again. Nothing else wakes them
+            // up here: this pass runs outside `ready()`, it has consumed the
+            // frontend event (a WINDOW_UPDATE) that would have led there, and
+            // edge-triggered epoll does not fire again for the response bytes
+            // already waiting in the kernel.
+            let mut backend_read = false;
+            let mut backend_close = false;
+            let context = &mut self.context;
+            for (_token, backend) in self.router.backends.iter_mut() {
+                if backend.try_resume_reading(context)
+                    || backend.readiness().filter_interest().is_readable()
+                {
+                    backend_read = true;
+                    match backend.readable(context, EndpointServer(&mut self.frontend)) {
+                        MuxResult::Continue | MuxResult::Upgrade => {}
+                        MuxResult::CloseSession => backend_close = true,
+                    }
+                }
+            }
+            if backend_close {
+                if !self.delay_close_for_frontend_flush("backend readable") {
+                    return true;
+                }
+                break;
+            }
+
             iterations += 1;
             if iterations >= MAX_LOOP_ITERATIONS
-                || (!self.frontend.has_pending_write()
+                || (!backend_read
+                    && !self.frontend.has_pending_write()
                     && !self.frontend.readiness().event.is_writable())
             {
                 break;
